@@ -91,7 +91,8 @@ def run(ctx):
         neurons, rows = gen_case(rng)
         io = bool(rng.integers(2))
         names = list(range(len(neurons)))
-        st, res = guarded(lambda: impl_views(NeuronConnector, neurons, io))
+        incr = bool(rng.random() < 0.3)
+        st, res = guarded(lambda: impl_views(NeuronConnector, neurons, io, incremental=incr))
         # grouping
         idx = names + ([-1] if io else [])
         groups_r = {a: int(rng.integers(100, 103)) for a in idx if rng.random() < 0.6}
@@ -180,8 +181,15 @@ def run(ctx):
             ctx.mismatch('group_matrix: implementation and model differ', gdesc, dict(impl=sorted(icells.items()), model=sorted(mcells.items())))
 
 
-def impl_views(NeuronConnector, neurons, io):
-    nc = NeuronConnector(neurons)
+def impl_views(NeuronConnector, neurons, io, incremental=False):
+    if incremental and len(neurons) > 1:
+        # built neuron by neuron, with every view materialised in between: the final views describe the final set of neurons
+        nc = NeuronConnector(neurons[:1])
+        for n_ in neurons[1:]:
+            list(nc.edges(include_other=True)); nc.to_adjacency(include_other=True); nc.to_digraph(include_other=True)
+            nc.add_neuron(n_)
+    else:
+        nc = NeuronConnector(neurons)
     edges = [(int(e.connector_id), name_code(e.source_name), name_code(e.target_name), nz(e.source_node), nz(e.target_node))
              for e in nc.edges(include_other=io)]
     adjdf = nc.to_adjacency(include_other=io)
@@ -196,4 +204,10 @@ def impl_views(NeuronConnector, neurons, io):
     multi = [(int(d['connector_id']), name_code(u), name_code(v), nz(d['pre_node']), nz(d['post_node'])) for u, v, d in mg.edges(data=True)]
     if set(dg.nodes) != set(adjdf.index) or set(mg.nodes) != set(adjdf.index):
         raise AssertionError('node sets of the three views differ')
+    # the weighted digraph navis builds FROM the adjacency matrix carries the same weights in the same direction
+    import navis
+    g2 = navis.network2nx(adjdf)
+    w2 = {(name_code(u), name_code(v)): int(d_['weight']) for u, v, d_ in g2.edges(data=True) if d_.get('weight', 0)}
+    if w2 != {k_: v_ for k_, v_ in adj.items() if v_}:
+        raise AssertionError('network2nx(adjacency) differs from the adjacency matrix: %s vs %s' % (sorted(w2.items())[:6], sorted((k_, v_) for k_, v_ in adj.items() if v_)[:6]))
     return dict(edges=edges, adj=adj, adjdf=adjdf, dig=dig, digw=digw, multi=multi)
